@@ -19,7 +19,7 @@ META = {
         "seeded random log records: measurement names, tag/field keys and string values over an "
         "alphabet containing space, comma, equals, double and single quote, backslash, non-ASCII "
         "and emoji; int/float/bool fields; whitelist given as set/list/dict of defaults with "
-        "str and non-str default and record tag values; integer resolutions 1..10^4 or none; "
+        "str and non-str default and record tag values (numbers, booleans, and tuples / lists / dicts / ranges whose text needs escaping); integer resolutions 1..10^4 or none; "
         "sequences of 1-4 records through the same formatter instance; JSON: nested payloads, a fifth of them with object keys that are not strings (int, float, bool, null: e.g. a histogram), "
         "defaults, time enabled/disabled/custom format. Non-trivial = at least one special "
         "character or a tag or a timestamp is involved; distinct by content."
@@ -96,7 +96,10 @@ def gen_tag_value(rnd):
     k = rnd.random()
     if k < 0.7:
         return gen_text(rnd, 1, 8, rnd.choice([0.0, 0.3, 0.6]), "tagvalue")
-    return rnd.choice([49, 8, 0.5, True, False, -3, 10**6])
+    if k < 0.9:
+        return rnd.choice([49, 8, 0.5, True, False, -3, 10**6])
+    # values whose text form needs escaping although they are not strings
+    return rnd.choice([(1, 2), [1, "a b"], {"k": 1}, range(3), ("x=1",), [0.5, None], {"a b": [1, 2]}])
 
 
 def gen_line_case(rnd, spec):
@@ -298,6 +301,8 @@ def exec_line(case, result):
             problems.append(("record %d: timestamp %r, expected %r (created %r, resolution %r)" % (idx, ts, want_ts, rec["created"], case["resolution"]), None))
         if want_tags:
             result.count("line_records_with_tags")
+        if any(not isinstance(v, (str, int, float)) for v in list(defaults.values()) + [v for k, v in payload.items() if k in whitelist]):
+            result.count("line_records_with_container_tag_values")
         if any(c in rec["name"] + "".join(payload) + "".join(v for v in payload.values() if isinstance(v, str)) for c in ' ,="\'\\'):
             result.count("line_records_with_special_chars")
         if want_ts is not None:
@@ -433,7 +438,7 @@ def run_shard(spec):
 
 
 def finish(total, tier):
-    for name in ("line_records", "line_records_with_tags", "line_records_with_special_chars", "line_records_with_timestamp",
+    for name in ("line_records", "line_records_with_tags", "line_records_with_special_chars", "line_records_with_timestamp", "line_records_with_container_tag_values",
                  "json_records", "json_records_with_time", "json_records_without_time", "json_records_with_keys_that_are_not_strings"):
         if not total.counters.get(name) and not total.violations:
             total.inconc("monitor never observed: " + name)
